@@ -93,7 +93,8 @@ class Contract:
     def __init__(self, params=None, requires=(), ensures=(), raises=None, loops=None, theory=None,
                  inline=(), opaque=(), ghosts=None, public_ensures=(), modifies=(), result=None,
                  fields=None, pure=True, frame=(), no_raise=False, mode='unbounded', defaults=None,
-                 ensures_exc=None, result_kind=None, notes='', ladder=None, lemmas=None, ghost_at=None):
+                 ensures_exc=None, result_kind=None, notes='', ladder=None, lemmas=None, ghost_at=None, ghost_entry=()):
+        self.ghost_entry = list(ghost_entry)  # ghost statements executed at function entry (after the preconditions are assumed)
         self.ghost_at = ghost_at or {}      # source-text prefix of a statement -> ghost statements executed right after it
         self.ladder = ladder or []
         self.lemmas = lemmas or []          # inductive lemmas proved at the return point (see Exec.prove_lemmas)
@@ -236,6 +237,8 @@ class Exec:
         if not self.feasible(st):
             self.vacuous.append('the preconditions (with the theory) are contradictory')
         self.entry = st.copy()
+        if getattr(self.contract, 'ghost_entry', None):
+            self.exec_ghost(self.contract.ghost_entry, st, fnode)
         if self.contract.frame:
             stored = set()
             for n in ast.walk(fnode):
